@@ -30,6 +30,7 @@ class Unsupported(Exception):
 _tok = re.compile(r"""
     (?P<ws>\s+|//[^\n]*|/\*.*?\*/)
   | (?P<num>\d[\d_]*(?:usize|u32|u64|i32|isize)?)
+  | (?P<chr>'(?:[^'\\]|\\.)')
   | (?P<life>'[A-Za-z_][A-Za-z_0-9]*(?!'))
   | (?P<str>"(?:[^"\\]|\\.)*")
   | (?P<id>[A-Za-z_][A-Za-z_0-9]*)
@@ -196,8 +197,20 @@ class P:
                     while self.peek() != "=":
                         self.eat()
                 self.eat("=")
-                e = self.expr()
-                self.eat(";")
+                save = self.i
+                try:
+                    e = self.expr()
+                    self.eat(";")
+                except Unsupported:
+                    # an initialiser outside the subset: the binding becomes OPAQUE (the caller must supply it as a parameter)
+                    self.i = save
+                    d = 0
+                    while not (d == 0 and self.peek() == ";"):
+                        x = self.eat()
+                        d += x in ("(", "{", "[")
+                        d -= x in (")", "}", "]")
+                    self.eat(";")
+                    e = ("opaque",)
                 stmts.append(("let", n, e))
                 continue
             e = self.expr(stmt=True)
@@ -552,6 +565,10 @@ class Tr:
         saved_env, saved_lets = dict(self.env), list(self.lets)
         pre = []
         for s in stmts:
+            if s[0] == "let" and s[2][0] == "opaque":
+                if s[1] not in self.env:
+                    raise Unsupported("opaque initialiser of `%s`" % s[1])
+                continue                      # supplied as a parameter
             if s[0] == "let":
                 v, ty = self.e(s[2])
                 pre.append((s[1], v))
@@ -599,6 +616,13 @@ class Tr:
         """`if c {assignments} [else {assignments}]` as a statement: every variable assigned in a branch gets a joined value"""
         _, c, th, el = x
         cc, _ = self.e(c)
+
+        def stmtify(b):
+            # a trailing `if` without `;` inside a statement-if is a statement too
+            if b is not None and b[2] is not None and b[2][0] == "if":
+                return ("block", b[1] + [("expr", b[2])], None)
+            return b
+        th, el = stmtify(th), stmtify(el)
 
         def assigned(b):
             out = []
@@ -662,9 +686,9 @@ def translate_fn(ctx, src_toks, impl_header, fn_name, coq_name, self_ty=None, dr
             c = cty(ctx, t)
             env[n] = t.replace("& ", "").replace("&", "").strip() if c not in ("N", "bool") else c
             cparams.append((n, c))
-    for n, c in extra_params:
+    for k, (n, c) in enumerate(extra_params):
         env[n] = c
-        cparams.insert(0, (n, c))
+        cparams.insert(k, (n, c))
     tr = Tr(ctx, self_ty, env)
     if returns_self and ret is None:
         term, rty = tr.blk(body, result="self")
